@@ -6,7 +6,7 @@ Three separately keyed clauses per write (create_track and update):
  (3) no silent corruption: a write that returned is followed by a snapshot() that returns.
 """
 from .. import gen_hist as GH, gen_snap as GS, runner
-from ..framework import ALL_SCHEMAS, family, case_hash
+from ..framework import ALL_SCHEMAS, family, case_hash, is_v2
 
 LEVEL = "exploration"
 RULE = ("(schema, snapshot) pairs on all 18 schema versions; snapshots from per-field pools (every optional both ways, "
@@ -36,7 +36,7 @@ def v1_bpm_policy(written, got):
     return "truncated-to-integer" if gotv == float(int(GS.undbits(b))) else "unexplained"
 
 
-def build_case(cid, schema, sA, sB, simple_first, bystander, prelude=()):
+def build_case(cid, schema, sA, sB, simple_first, bystander, prelude=(), between=()):
     # a bystander track: writing to t0 must never change it
     # (prelude: ops that shape the library first - id counters moved up, filler tracks - before anything is judged)
     ops = [{"op": "create_temporary", "schema": schema}] + list(prelude) + [{"op": "create_track", "as": "tb", "snap": bystander},
@@ -46,11 +46,16 @@ def build_case(cid, schema, sA, sB, simple_first, bystander, prelude=()):
         ops.append({"op": "update", "t": "t0", "snap": sA})
     else:
         ops.append({"op": "create_track", "as": "t0", "snap": sA})
-    ops += [{"op": "snapshot", "t": "t0"}, {"op": "update_last", "t": "t0"}, {"op": "snapshot", "t": "t0"},
-            {"op": "update", "t": "t0", "snap": sB},
+    ops += [{"op": "snapshot", "t": "t0"}, {"op": "update_last", "t": "t0"}, {"op": "snapshot", "t": "t0"}]
+    # columns only the low-level 2.x table API (or Engine DJ) writes - flags, play state, source ids - set between the writes:
+    # a snapshot written afterwards must still read back as written
+    ops += list(between)
+    w2 = len(ops)
+    ops += [{"op": "update", "t": "t0", "snap": sB},
             {"op": "snapshot", "t": "t0"}, {"op": "update_last", "t": "t0"}, {"op": "snapshot", "t": "t0"},
             {"op": "snapshot", "t": "tb"}]
-    return {"id": cid, "schema": schema, "ops": ops, "_sA": sA, "_sB": sB, "_simple": simple_first, "_off": len(prelude)}
+    return {"id": cid, "schema": schema, "ops": ops, "_sA": sA, "_sB": sB, "_simple": simple_first, "_off": len(prelude), "_w2": w2,
+            "_between": len(between)}
 
 
 def judge_case(ctx, res):
@@ -86,7 +91,15 @@ def judge_case(ctx, res):
     else:
         writes.append((off + 3, case["_sA"], "create_track"))
         base = off + 4
-    writes.append((base + 3, case["_sB"], "update"))
+    writes.append((case.get("_w2", base + 3), case["_sB"], "update"))
+    if case.get("_between"):
+        w2 = case["_w2"]
+        bad = [e["exc"]["type"] for e in evs[w2 - case["_between"]:w2] if "exc" in e]
+        if bad and len(evs) >= w2:
+            # (the track may not exist when the first write was rejected)
+            ctx.bump_in("low_level_column_writes_failed", bad[0])
+        else:
+            ctx.bump("cases_with_low_level_columns_set_between_writes")
     # the bystander before and after everything
     b0 = off + 2
     if len(evs) == len(ops) and "ret" in evs[b0] and "ret" in evs[-1]:
@@ -179,7 +192,22 @@ def run(ctx):
             if k % 8 in (5, 6):
                 nfill = 12 if ctx.tier == "quick" else ctx.rng.choice([12, 40, 150])
                 prelude += [{"op": "create_track", "as": "f%d" % j, "snap": {"relative_path": GS.hx("filler/%03d.mp3" % j)}} for j in range(nfill)]
-            cases.append(build_case("c%d" % n, schema, sA, sB, simple_first=(k % 4 == 3), bystander=by, prelude=prelude))
+            between = []
+            if is_v2(schema) and k % 8 in (2, 5):
+                flags = {"is_beat_grid_locked": True, "is_played": True, "is_available": False, "explicit_lyrics": True,
+                         "is_metadata_imported": True, "played_indicator": 7, "third_party_source_id": 3, "streaming_flags": 5,
+                         "pdb_import_key": 9, "uri": GS.hx("streaming://x/1"), "streaming_source": GS.hx("src")}
+                names = ctx.rng.sample(sorted(flags), ctx.rng.randrange(1, 5))
+                if k % 16 == 2:
+                    names = ["is_beat_grid_locked"] + [x for x in names if x != "is_beat_grid_locked"]
+                between = [{"op": "trk_set_col", "id": "$tid", "col": c, "value": flags[c]} for c in names]
+            c = build_case("c%d" % n, schema, sA, sB, simple_first=(k % 4 == 3), bystander=by, prelude=prelude, between=between)
+            if between:
+                c["ops"][0]["op"] = "lib_create_temporary"
+                for o in c["ops"]:
+                    if o.get("as") == "t0":
+                        o["bind"] = "tid"
+            cases.append(c)
             n += 1
     for c in cases[:2]:
         ctx.sample({"schema": c["schema"], "written": {k: (v if len(str(v)) < 200 else str(v)[:200]) for k, v in c["_sA"].items()}})
@@ -209,6 +237,9 @@ def replay(ctx, doc):
     case["_simple"] = simple
     case["_off"] = off
     case["_sA"] = ops[off + 4]["snap"] if simple else ops[off + 3]["snap"]
-    case["_sB"] = ops[off + (8 if simple else 7)]["snap"]
+    w2 = next(i for i, o in enumerate(ops) if o["op"] == "update" and i > off + 4)
+    case["_sB"] = ops[w2]["snap"]
+    case["_w2"] = w2
+    case["_between"] = sum(1 for o in ops[:w2] if o["op"] == "trk_set_col")
     res = runner.run_one(case, cfg="plain")
     judge_case(ctx, res)
